@@ -1,4 +1,5 @@
 import Driver.Loop
+import Driver.C07
 
 /-- handlers of this executable; each builder adds `Driver.Cxx.handle` here -/
-def main : IO Unit := Driver.runMain []
+def main : IO Unit := Driver.runMain [Driver.C07.handle]
